@@ -396,6 +396,18 @@ def canon(build: Build, mi: MsgInfo, tree: dict) -> dict:
 # ---------------------------------------------------------------------------
 # betterproto side
 
+def hints_of(cls) -> dict:
+    """resolved type hints of a message class: the runtime's own lazy resolution when the class offers it, else the
+    public typing API with the class's module as global namespace (so a renamed helper cannot raise an alarm)"""
+    import sys
+    import typing
+
+    fn = getattr(cls, "_type_hints", None)
+    if callable(fn):
+        return fn()  # what the runtime itself resolves (the thing to observe)
+    return typing.get_type_hints(cls, vars(sys.modules[cls.__module__]), {})
+
+
 _ATTR_CACHE: Dict[type, Dict[int, str]] = {}
 
 
